@@ -6,17 +6,16 @@ C11 — Automatic mask minimises the documented penalty over all eight masks.
                        returns a mask whose ranking score is minimal among the candidates; the
                        `u32::MAX` start value is harmless because every score is below it.
 * `C11_forced`       : a forced mask overrides the selection.
-* `C11_masks_order`  : the candidates are the eight ISO masks 0..7, each once (tier K on `MASKS`).
+* `C11_masks_order`  : (Props/C11Masks.lean) the candidates are the eight ISO masks 0..7, each once (tier K on `MASKS`).
 * `C11_percent`      : (Props/C11Percent.lean) `PERCENT_SCORE[p] = 10 * k`, k = 5%-steps of p away from the 45..54 band (tier K).
 * ranking score = documented penalty of the very candidate (rows AND columns of the masked
   matrix): `Proofs/ScoreSound.lean` (`line` = runs + windows, `squares` = blocks).
 -/
-import FastQr.Finite.TablesMasks
 import FastQr.Proofs.Lift
 import FastQr.Model.Build
 
 namespace FastQr.Props.C11
-open FastQr Model Finite Proofs
+open FastQr Model Proofs
 
 /-- invariant of the selection fold -/
 theorem select_fold (cs : List (Nat × Nat)) (best : Nat × Nat) :
@@ -73,9 +72,6 @@ theorem C11_select_min (cs : List (Nat × Nat)) (first : Nat) (hne : cs ≠ [])
     refine ⟨c, hc, ?_, ?_⟩
     · simp [selectBest, hr]
     · intro d hd; have := h2 d hd; rw [hr] at this; exact this
-
-theorem C11_masks_order : T.masksOrder = [0, 1, 2, 3, 4, 5, 6, 7] := by
-  simpa [masksOrderOk] using masksOrderOk_true
 
 /-- **C11 (forced mask overrides)** -/
 theorem C11_forced (bytes : Array Nat) (l : ECL) (v m : Nat) :
